@@ -42,6 +42,8 @@ def server_scenario_st(tier):
                                                        'no'])}),
         st.just({'d': 'false'}),
         st.just({'d': 'self_disconnect'}),
+        # the handler fails with an ordinary exception (not a refusal)
+        st.just({'d': 'crash'}),
         st.fixed_dictionaries({'d': st.just('raise'),
                                'args': st.lists(S.tree_st(
                                    with_bytes=False, max_leaves=2),
@@ -226,6 +228,8 @@ def _run(case, aio, coro, setup, w, socketio, n_transports):
             return False
         if d['d'] == 'raise':
             raise socketio.exceptions.ConnectionRefusedError(*d['args'])
+        if d['d'] == 'crash':
+            raise RuntimeError('application handler fault')
         return d.get('ret')
 
     def ns_of(sid):
